@@ -335,11 +335,11 @@ func (ctx *Context) makeDetailStr(details []BufferSpan) string {
 		detailResult = buf.Bytes()
 	}
 
-	detailStr := string(detailResult)
+	detailStr := strings.TrimSpace(string(detailResult))
 	if detailStr == ctx.Ret.ToString() {
 		detailStr = "" // 如果detail和结果值完全一致，那么将其置空
 	}
-	return strings.TrimSpace(detailStr)
+	return detailStr
 }
 
 func (ctx *Context) evaluate() {
